@@ -64,7 +64,8 @@ Print Assumptions C03_hit_after_store_within_capacity.
    arguments in the same order, the same input digests and
      C/C++: the same allow-listed variables UP TO ORDER, and — only for objects instrumented for coverage /
             profiling ([profile_out]: the compiler embeds the .gcda/.gcno location derived from it) — the same
-            absolute object path,
+            absolute object path, and — only with -gsplit-dwarf ([split_out]: the object names its .dwo file) —
+            the same .dwo path,
      rustc: the same --cfg values, --extern files, CARGO_ variables and env-deps UP TO ORDER, and the same cwd
    have the same fingerprint — whatever their output names, -L paths, unhashed arguments, other variables. *)
 Theorem C03_key_ignores_unhashed :
@@ -73,7 +74,7 @@ Theorem C03_key_ignores_unhashed :
   hashed_args (rq_args r') = hashed_args (rq_args r) ->
   match rq_lang r with
   | LangC =>
-      profile_out r' = profile_out r /\
+      profile_out r' = profile_out r /\ split_out r' = split_out r /\
       Permutation (filter (fun e => c_env_hashed (fst e)) (rq_env r'))
                   (filter (fun e => c_env_hashed (fst e)) (rq_env r))
   | LangRust =>
@@ -89,10 +90,11 @@ Proof. exact key_ignores_unhashed. Qed.
 Print Assumptions C03_key_ignores_unhashed.
 
 (* ... in particular: another output name (every -o / --out-dir argument and every output path replaced), for
-   every rustc request and every C/C++ request that is not instrumented for coverage / profiling *)
+   every rustc request and every C/C++ request that is neither instrumented for coverage / profiling nor
+   compiled with -gsplit-dwarf *)
 Theorem C03_key_ignores_output :
   forall (r : request) (p : bytes) (outs : list output) (tag : N),
-  rq_lang r = LangRust \/ has_profile (rq_args r) = false ->
+  rq_lang r = LangRust \/ (has_profile (rq_args r) = false /\ has_split (rq_args r) = false) ->
   fingerprint_of (retarget r p outs tag) = fingerprint_of r.
 Proof. exact key_ignores_output. Qed.
 Print Assumptions C03_key_ignores_output.
